@@ -61,6 +61,69 @@ def impl_breaker(thr, slp, delay, mx, losses):
     return " ".join(out)
 
 
+def impl_instances(k, mxs, ops):
+    """k ConnectionManagers alive at once; ops = [(instance, 'f'|'r')]; after every op, every instance's
+    (current_delay_sec, _get_back_off_time()) - each must follow its OWN history only"""
+    import han.meter_connection as mc
+
+    async def fac():
+        raise RuntimeError
+
+    ms = [mc.ConnectionManager(fac) for _ in range(k)]
+    for m, mx in zip(ms, mxs):
+        m.back_off_connect_error.max_delay = mx
+    snap = lambda: [(m.back_off_connect_error.current_delay_sec, m._get_back_off_time()) for m in ms]
+    out = [snap()]
+    for i, o in ops:
+        if o == "f":
+            ms[i].back_off_connect_error.failure()
+        else:
+            ms[i].back_off_connect_error.reset()
+        out.append(snap())
+    return out
+
+
+def _instances(res, rng, n):
+    cases = []
+    for _ in range(n):
+        k = rng.choice([2, 2, 3])
+        mxs = [rng.choice([60, 60, 4, 3600, 300]) for _ in range(k)]
+        ops = [(rng.randrange(k), rng.choice("fffr")) for _ in range(rng.randint(1, 30))]
+        cases.append((k, mxs, ops))
+    reqs = []
+    for k, mxs, ops in cases:
+        for i in range(k):
+            reqs.append(f"backoff {mxs[i]} {''.join(o for j, o in ops if j == i) or '.'}")
+    ans = iter(lib.drive(reqs))
+    for k, mxs, ops in cases:
+        model = []
+        for i in range(k):
+            toks = next(ans).split(" ")
+            model.append([int(toks[0])] + [int(t.split("/")[0]) for t in toks[1:]])
+        out = impl_instances(k, mxs, ops)
+        res.evaluations += 1
+        case = {"op": "instances", "k": k, "max": mxs, "ops": [[i, o] for i, o in ops]}
+        seen = [0] * k
+        bad = None
+        for step, snap in enumerate(out):
+            if step > 0:
+                seen[ops[step - 1][0]] += 1
+            for i in range(k):
+                want = model[i][seen[i]]
+                if snap[i] != (want, want):
+                    bad = (step, i, snap[i], want)
+                    break
+            if bad:
+                break
+        if bad:
+            step, i, got, want = bad
+            res.tie_break(case, list(got), want, "instances")
+            res.prop_failure(case, f"with {k} ConnectionManagers alive, after op #{step} manager {i} reports (current_delay_sec, back-off time) = {got}; "
+                                   f"its own failure/reset history gives {want}", "instances")
+        res.nontriv((k, tuple(mxs), tuple(ops)))
+    res.count("instances", len(cases))
+
+
 def run(res, tier, seed, widen=1):
     import logging
     logging.disable(logging.CRITICAL)
@@ -91,6 +154,7 @@ def run(res, tier, seed, widen=1):
             res.prop_failure(case, f"after {ops[:k + 1]!r} current_delay_sec = {out[k + 1]}, min(2^(n-1), max_delay) = {spec[k] if k >= 0 else 0}", "backoff")
         res.nontriv((mx, ops))
     res.count("backoff", len(cases))
+    _instances(res, rng, (300 if tier == "quick" else 5000) * widen)
     bcases = []
     for _ in range(1500 * widen):
         thr, slp = rng.choice([5, 1, 10, 30]), rng.choice([5, 1, 20])
@@ -128,7 +192,20 @@ def search(res, tier, seed):
 
 def replay(payload, res):
     c = payload["case"]
-    if c["op"] == "backoff":
+    if c["op"] == "instances":
+        import random
+        _instances_replay = impl_instances(c["k"], c["max"], [(i, o) for i, o in c["ops"]])
+        print("snapshots", _instances_replay[-3:])
+        own = []
+        for i in range(c["k"]):
+            n = 0
+            for j, o in c["ops"]:
+                if j == i:
+                    n = n + 1 if o == "f" else 0
+            own.append(0 if n == 0 else min(2 ** (n - 1), c["max"][i]))
+        ok = [x[0] for x in _instances_replay[-1]] == own
+        print("final", _instances_replay[-1], "own histories give", own)
+    elif c["op"] == "backoff":
         out, spec = impl_backoff(c["max"], c["ops"])
         ok = out[1:] == spec and out[0] == 0
         print("delays", out, "spec", spec)
